@@ -249,7 +249,9 @@ def io_oracle(r):
     if prev is not None and not bad:
         io = prev.get("io", "").split()
         if len(io) >= 3 and (io[1] != "0" or io[2] != "0"):
-            closes9 = [l for l in il if l.startswith("close 9")]
+            # 9 / 10 = ADF_FILE_NOT_OPENED / FILE_INDEX_OUT_OF_RANGE: a LIVE cgio slot whose ADF file is gone (an invalid or closed
+            # cgio number is refused with -1 / -4 before ADF is asked)
+            closes9 = [l for l in il if l.startswith("close 9 ") or l.startswith("close 10 ")]
             bad.append((K_STRANDED if (r["backend"] == "adf" and closes9) else (K_H5TWICE if close95 else None),
                         {"problem": "cgio handle table not released after every handle was closed", "io": prev["io"],
                          "close_errors": [x.split(" | ")[0] for x in il if x.startswith("close ") and not x.startswith("close 0")
